@@ -6,13 +6,15 @@
   every interleaving, every timing of the time-outs.
 -/
 import JRV.Lemmas.PoolLock
+import JRV.Lemmas.PoolC10
+import JRV.Lemmas.PoolLock2
 import JRV.Generated
 
 set_option linter.unusedSimpArgs false
 set_option linter.unusedVariables false
 
 namespace JRV.Props
-open JRV JRV.Pool
+open JRV JRV.Pool JRV.Pool.C10L
 
 /-! ### constructor -/
 
@@ -135,34 +137,348 @@ theorem C10_serving_le_max (cfg : Config) (n : Nat) (s : State) (hr : Reach (ini
   have h3 := (C10_threads_le_max cfg n s hr).1
   omega
 
-/-! Statements not (yet) proved — kept at full strength. -/
+/-! ### growth: no starvation below capacity, and the floor
 
-/-- Safety core of the progress claim (repaired accounting): while the pool is running and the controlling thread is not
-    inside `start()`/`stop()`, the workers that are serving and hold no task are at least
-    `min(#queued tasks, max − #workers holding a task)`: a queued task with spare capacity always has a free serving
-    worker that will reach `queue.get`. -/
-def C10_no_starvation_full_statement : Prop :=
-  ∀ (cfg : Config) (n : Nat) (s : State), cfg.singleCtl = true → Reach (init cfg n) s → s.stop = false →
-    (∀ c, s.clients[0]? = some c → (match c.pc with
-        | .startClear | .startQsize | .stAcq _ | .stIsSet _ | .stRel _ => False | _ => True)) →
-    (∀ c ∈ s.clients, cDepth c.pc = 0) →
+  Guards (all `Bool`-valued, each needed):
+  * `cfg.singleCtl = true` — `start`/`stop`/`clear` are issued by one controlling thread (client 0).  Two controllers
+    could overlap a `stop()` with a `start()` and leave workers that have seen the stop flag counted in `nb_threads`.
+  * `s.stop = false` — the pool is running (from `start()`'s `event.clear` to `stop()`'s `event.set`); once the flag is
+    set workers leave and nothing is promised.
+  * `inStart c.pc = false` for client 0 — `start()` has returned: it is not atomic (it clears the flag, reads
+    `qsize()`, then spawns one worker per lock section), so between `event.clear` and its return fewer workers than
+    `min(pending, max)` may exist.  (`C10_no_starvation_owed` covers that window too, counting the spawns still owed.)
+  * `spawnOwed c.pc = false` for every client — no client is between `enqueue`'s `pending += 1` and the
+    `__start_thread` it triggers (both inside one critical section of the pool lock, but two steps of the model).
+  No guard is needed for `clear()`: a task it has taken from the queue and not yet accounted is counted in
+  `nb_pending_task` but no longer queued, which only helps. -/
+
+private theorem serving_of_fresh {w : Worker} (h : stale w = false) : serving w = counted w := by
+  unfold stale at h; unfold serving counted
+  cases hpc : w.pc <;> simp_all
+
+private theorem counted_split {s : State} (hB : BaseInv s) (hR : FreshInv s) (hrun : s.stop = false) :
+    s.workers.countP counted = s.workers.countP (fun w => serving w && !wHasTask w) + s.workers.countP wHasTask := by
+  apply countP_split
+  intro w hw
+  obtain ⟨j, hj⟩ := List.getElem?_of_mem hw
+  have h1 := serving_of_fresh (hR hrun j w hj)
+  have h2 := wHasTask_counted hB hw
+  cases hc : counted w <;> cases ht : wHasTask w <;> simp_all
+
+private theorem serving_eq_threads {s : State} (hB : BaseInv s) (hR : FreshInv s) (hrun : s.stop = false) :
+    s.workers.countP serving = s.nbThreads := by
+  rw [hB.count.threads]
+  apply List.countP_congr
+  intro w hw
+  obtain ⟨j, hj⟩ := List.getElem?_of_mem hw
+  rw [serving_of_fresh (hR hrun j w hj)]
+
+/-- General form, valid in every reachable state with the flag clear once `start()` has read the queue size — the
+    windows of `start()` and `enqueue` included: the free serving workers **plus the spawns still owed** (`weight`: one
+    per client between `enqueue`'s growth test and its `__start_thread`, the remaining iterations of `start()`) are at
+    least `min(#queued tasks, max − #workers holding a task)`. -/
+theorem C10_no_starvation_owed (cfg : Config) (n : Nat) (s : State) (hctl : cfg.singleCtl = true)
+    (hr : Reach (init cfg n) s) (hrun : s.stop = false) (hq : ∀ c ∈ s.clients, atQsize c = false) :
     min (s.queue.countP isTask) (cfg.max - s.workers.countP wHasTask)
-      ≤ s.workers.countP (fun w => serving w && !wHasTask w)
+      ≤ s.workers.countP (fun w => serving w && !wHasTask w) + (s.clients.map weight).sum := by
+  have hB := BaseInv_reach hr
+  have hK := CtlBundle_reach hctl hr
+  have hG := (GrowInv_reach hctl hr).grow hrun (by
+    rw [List.countP_eq_zero]; intro c hc; simp [hq c hc])
+  rw [reach_cfg hr] at hG
+  have h1 := counted_split hB hK.fresh hrun
+  have h2 := hB.count.threads
+  have h3 := hB.count.pending
+  omega
 
-/-- Liveness reading: no stuck state below capacity + a decreasing measure under weak fairness (see DESIGN 3.6). -/
-def C10_progress_full_statement : Prop :=
-  ∀ (cfg : Config) (n : Nat) (s : State), cfg.singleCtl = true → Reach (init cfg n) s → s.stop = false →
-    (∀ c ∈ s.clients, c.pc = .idle) → (∃ t, Item.task t ∈ s.queue) →
-    (s.nbThreads < cfg.max ∨ ∃ w ∈ s.workers, serving w = true ∧ wHasTask w = false) →
-    ∃ a s', (match a.op with | .taskEnd _ => False | _ => True) ∧ (match a.who with | .worker _ => True | _ => False) ∧
-      step? s a = some s'
+/-- **No starvation below capacity** (safety core of the progress claim): in every reachable state in which the pool is
+    running, `start()` has returned and no client is between `enqueue`'s growth test and its spawn, the serving workers
+    that hold no task are at least `min(#queued tasks, max − #workers holding a task)`.  Hence whenever a task is queued
+    and fewer than `max_threads` workers hold a task, some serving worker holds none; such a worker is at the loop head,
+    at `queue.get`, or in its accounting/retirement section, and it retires only when `nb_threads > nb_pending`, i.e.
+    when this inequality survives its leaving. -/
+theorem C10_no_starvation (cfg : Config) (n : Nat) (s : State) (hctl : cfg.singleCtl = true)
+    (hr : Reach (init cfg n) s) (hrun : s.stop = false)
+    (hstart : ∀ c, s.clients[0]? = some c → inStart c.pc = false)
+    (hspawn : ∀ c ∈ s.clients, spawnOwed c.pc = false) :
+    min (s.queue.countP isTask) (cfg.max - s.workers.countP wHasTask)
+      ≤ s.workers.countP (fun w => serving w && !wHasTask w) := by
+  have hK := CtlBundle_reach hctl hr
+  have hns := no_client_inStart hK.ctl hstart
+  have h := C10_no_starvation_owed cfg n s hctl hr hrun (fun c hc => atQsize_inStart (hns c hc))
+  rw [sum_map_eq_zero weight s.clients (fun c hc => weight_zero (hns c hc) (hspawn c hc))] at h
+  exact h
 
-/-- From the return of `start()` until `stop()` is called at least `min_threads` workers serve the queue. -/
-def C10_min_floor_full_statement : Prop :=
-  ∀ (cfg : Config) (n : Nat) (s : State), cfg.singleCtl = true → cfg.min ≤ cfg.max → Reach (init cfg n) s → s.stop = false →
-    (∀ c, s.clients[0]? = some c → (match c.pc with
-        | .startClear | .startQsize | .stAcq _ | .stIsSet _ | .stRel _ => False | _ => True)) →
-    cfg.min ≤ s.workers.countP serving
+/-- The statement as first written (no client holds the pool lock): a special case. -/
+theorem C10_no_starvation_unlocked (cfg : Config) (n : Nat) (s : State) (hctl : cfg.singleCtl = true)
+    (hr : Reach (init cfg n) s) (hrun : s.stop = false)
+    (hstart : ∀ c, s.clients[0]? = some c → inStart c.pc = false)
+    (hlock : ∀ c ∈ s.clients, cDepth c.pc = 0) :
+    min (s.queue.countP isTask) (cfg.max - s.workers.countP wHasTask)
+      ≤ s.workers.countP (fun w => serving w && !wHasTask w) := by
+  refine C10_no_starvation cfg n s hctl hr hrun hstart (fun c hc => ?_)
+  have := hlock c hc
+  unfold spawnOwed; unfold cDepth at this
+  cases hpc : c.pc <;> simp_all
+
+/-- A queued task with spare capacity has a free serving worker. -/
+theorem C10_free_worker_exists (cfg : Config) (n : Nat) (s : State) (hctl : cfg.singleCtl = true)
+    (hr : Reach (init cfg n) s) (hrun : s.stop = false)
+    (hstart : ∀ c, s.clients[0]? = some c → inStart c.pc = false)
+    (hspawn : ∀ c ∈ s.clients, spawnOwed c.pc = false)
+    (t : Nat) (ht : Item.task t ∈ s.queue) (hcap : s.workers.countP wHasTask < cfg.max) :
+    ∃ w ∈ s.workers, serving w = true ∧ wHasTask w = false := by
+  have h := C10_no_starvation cfg n s hctl hr hrun hstart hspawn
+  have hq : 0 < s.queue.countP isTask := List.countP_pos_iff.mpr ⟨_, ht, rfl⟩
+  have : 0 < s.workers.countP (fun w => serving w && !wHasTask w) := by omega
+  obtain ⟨w, hw, hp⟩ := List.countP_pos_iff.mp this
+  exact ⟨w, hw, by simpa using hp⟩
+
+/-- **The floor**: from the return of `start()` until `stop()` sets the flag, at least `min_threads` workers serve the
+    queue (`min_threads ≤ max_threads` is what the constructor guarantees: `C10_ctor_accepted`). -/
+theorem C10_min_floor (cfg : Config) (n : Nat) (s : State) (hctl : cfg.singleCtl = true) (hmm : cfg.min ≤ cfg.max)
+    (hr : Reach (init cfg n) s) (hrun : s.stop = false)
+    (hstart : ∀ c, s.clients[0]? = some c → inStart c.pc = false) :
+    cfg.min ≤ s.workers.countP serving := by
+  have hB := BaseInv_reach hr
+  have hK := CtlBundle_reach hctl hr
+  have hns := no_client_inStart hK.ctl hstart
+  have hG := (GrowInv_reach hctl hr).floor hrun (by
+    rw [List.countP_eq_zero]; intro c hc; simp [atQsize_inStart (hns c hc)])
+  rw [reach_cfg hr, sum_map_eq_zero startWeight s.clients (fun c hc => startWeight_zero (hns c hc))] at hG
+  rw [serving_eq_threads hB hK.fresh hrun]
+  omega
+
+/-- While the flag is clear, the workers serving the queue are exactly those counted in `nb_threads`. -/
+theorem C10_serving_eq_threads (cfg : Config) (n : Nat) (s : State) (hctl : cfg.singleCtl = true)
+    (hr : Reach (init cfg n) s) (hrun : s.stop = false) : s.workers.countP serving = s.nbThreads :=
+  serving_eq_threads (BaseInv_reach hr) (CtlBundle_reach hctl hr).fresh hrun
+
+/-- A run of the model used by the non-vacuity examples: `start()` (min 1, max 2: one worker), `enqueue` (no growth
+    needed), the worker takes the task, a second `enqueue` grows the pool (pending 2 > threads 1). -/
+def exampleRun : List Action :=
+  [⟨.client 0, .callStart, false⟩, ⟨.client 0, .eventIsSet, false⟩, ⟨.client 0, .eventClear, false⟩,
+   ⟨.client 0, .queueQsize, false⟩, ⟨.client 0, .lockAcquire, false⟩, ⟨.client 0, .eventIsSet, false⟩,
+   ⟨.client 0, .lockRelease, false⟩,
+   ⟨.client 1, .callEnqueue, false⟩, ⟨.client 1, .lockAcquire, false⟩, ⟨.client 1, .queuePut, false⟩,
+   ⟨.client 1, .lockRelease, false⟩,
+   ⟨.worker 0, .eventIsSet, false⟩, ⟨.worker 0, .queueGet, false⟩,
+   ⟨.client 1, .callEnqueue, false⟩, ⟨.client 1, .lockAcquire, false⟩, ⟨.client 1, .queuePut, false⟩,
+   ⟨.client 1, .lockAcquire, false⟩, ⟨.client 1, .eventIsSet, false⟩, ⟨.client 1, .lockRelease, false⟩,
+   ⟨.client 1, .lockRelease, false⟩]
+
+/-- Non-vacuity of `C10_no_starvation` / `C10_free_worker_exists` / `C10_min_floor` / `C10_serving_eq_threads`: the
+    guards hold in a reachable state with one queued task, one worker holding a task and one free serving worker
+    (`min(1, 2 − 1) = 1 ≤ 1`, the bound is tight). -/
+example : ∃ s, run (init { max := 2, min := 1, qbound := 0 } 2) exampleRun = some s ∧
+    s.stop = false ∧ s.clients.all (fun c => !inStart c.pc && !spawnOwed c.pc && cDepth c.pc == 0) = true ∧
+    s.queue = [.task 1] ∧ s.workers.countP wHasTask = 1 ∧
+    s.workers.countP (fun w => serving w && !wHasTask w) = 1 ∧ s.workers.countP serving = 2 ∧ s.nbThreads = 2 := by
+  refine ⟨_, rfl, ?_⟩; decide
+
+/-- The `inStart` guard is needed: a task enqueued before `start()` (no spawn: the pool is stopped) is queued, the flag is
+    clear, no client is inside `enqueue`, and no worker exists yet while `start()` is between its queue-size read and
+    its first spawn — the spawn is owed (`weight` 1), as `C10_no_starvation_owed` says. -/
+example : ∃ s, run (init { max := 2, min := 1, qbound := 0 } 2)
+    [⟨.client 1, .callEnqueue, false⟩, ⟨.client 1, .lockAcquire, false⟩, ⟨.client 1, .queuePut, false⟩,
+     ⟨.client 1, .lockAcquire, false⟩, ⟨.client 1, .eventIsSet, false⟩, ⟨.client 1, .lockRelease, false⟩,
+     ⟨.client 1, .lockRelease, false⟩,
+     ⟨.client 0, .callStart, false⟩, ⟨.client 0, .eventIsSet, false⟩, ⟨.client 0, .eventClear, false⟩,
+     ⟨.client 0, .queueQsize, false⟩] = some s ∧
+    s.stop = false ∧ s.clients.all (fun c => !atQsize c && !spawnOwed c.pc) = true ∧
+    s.queue.countP isTask = 1 ∧ s.workers.countP wHasTask = 0 ∧
+    s.workers.countP (fun w => serving w && !wHasTask w) = 0 ∧ (s.clients.map weight).sum = 1 := by
+  refine ⟨_, rfl, ?_⟩; decide
+
+/-- Non-vacuity of `C10_no_starvation_owed` (and the `spawnOwed` guard is needed): inside `enqueue`'s window (after the put that makes pending 2 > threads 1,
+    before the spawn) the free serving workers are 0, the spawn owed is 1, and `min(1, 2 − 1) = 1`. -/
+example : ∃ s, run (init { max := 2, min := 1, qbound := 0 } 2) (exampleRun.take 16) = some s ∧
+    s.stop = false ∧ s.clients.all (fun c => !atQsize c) = true ∧
+    s.queue.countP isTask = 1 ∧ s.workers.countP wHasTask = 1 ∧
+    s.workers.countP (fun w => serving w && !wHasTask w) = 0 ∧ (s.clients.map weight).sum = 1 := by
+  refine ⟨_, rfl, ?_⟩; decide
+
+/-! ### progress: no stuck state below capacity -/
+
+/-- Operations of a worker that are not the environment's (`task.end`: the task body returning or raising). -/
+def internalOp (op : Op) : Bool :=
+  match op with
+  | .taskEnd _ => false
+  | _ => true
+
+/-- The free serving worker's next operation: where it is on its way to `queue.get`. -/
+def distToGet (pc : WPc) : Nat :=
+  match pc with
+  | .get => 0
+  | .loopHead => 1
+  | .retRel => 2
+  | .retAcq => 3
+  | .finRel => 4
+  | _ => 5
+
+private theorem release_enabled {s : State} (hL : LockInv s) (k : Nat) (ho : s.lockOwner = some (.worker k)) :
+    ∃ s', step? s ⟨.worker k, .lockRelease, false⟩ = some s' := by
+  obtain ⟨w, hw, hd⟩ := hL.ownW k ho
+  obtain ⟨_, hdep⟩ := hL.wk k w hw hd
+  have hrel : canRelease s (.worker k) = true := by simp [canRelease, ho, hdep]
+  unfold wDepth at hd
+  apply Option.isSome_iff_exists.mp
+  cases hpc : w.pc <;> simp [hpc] at hd <;> simp [step?, hw, workerStep, hpc, hrel]
+
+/-- **No stuck state below capacity.**  In every reachable running state in which no client holds the pool lock and
+    `start()` has returned, if a task is queued and either fewer than `max_threads` workers are counted or a free serving
+    worker exists, then there is a serving worker `k` holding no task, and either `k`'s own next (non-time-out,
+    non-environment) operation is enabled, or the pool lock is held by a worker whose `lock.release` is enabled.  No
+    `task.end` — no running task finishing — is needed for the pool to move towards `queue.get`. -/
+theorem C10_progress_no_stuck_worker (cfg : Config) (n : Nat) (s : State) (hctl : cfg.singleCtl = true)
+    (hr : Reach (init cfg n) s) (hrun : s.stop = false)
+    (hstart : ∀ c, s.clients[0]? = some c → inStart c.pc = false)
+    (hlock : ∀ c ∈ s.clients, cDepth c.pc = 0)
+    (hq : ∃ t, Item.task t ∈ s.queue)
+    (hcap : s.nbThreads < cfg.max ∨ ∃ w ∈ s.workers, serving w = true ∧ wHasTask w = false) :
+    ∃ (k : Nat) (w : Worker), s.workers[k]? = some w ∧ serving w = true ∧ wHasTask w = false ∧
+      ((∃ op s', internalOp op = true ∧ step? s ⟨.worker k, op, false⟩ = some s') ∨
+       (∃ k' s', s.lockOwner = some (.worker k') ∧ step? s ⟨.worker k', .lockRelease, false⟩ = some s')) := by
+  have hB := BaseInv_reach hr
+  have hL := LockInv_reach hr
+  have hT := TaskInv_reach hr
+  obtain ⟨t, ht⟩ := hq
+  have hfree : ∃ w ∈ s.workers, serving w = true ∧ wHasTask w = false := by
+    rcases hcap with hlt | h
+    · refine C10_free_worker_exists cfg n s hctl hr hrun hstart (fun c hc => ?_) t ht ?_
+      · have := hlock c hc
+        unfold spawnOwed; unfold cDepth at this
+        cases hpc : c.pc <;> simp_all
+      · have := hasTask_le_threads hB; omega
+    · exact h
+  obtain ⟨w, hwm, hs, hnt⟩ := hfree
+  obtain ⟨k, hk⟩ := List.getElem?_of_mem hwm
+  refine ⟨k, w, hk, hs, hnt, ?_⟩
+  cases ho : s.lockOwner with
+  | some who =>
+    cases who with
+    | client j =>
+      obtain ⟨c, hc, hd⟩ := hL.ownC j ho
+      exact absurd (hlock c (List.mem_of_getElem? hc)) hd
+    | worker k' =>
+      obtain ⟨s', hs'⟩ := release_enabled hL k' ho
+      exact Or.inr ⟨k', s', rfl, hs'⟩
+  | none =>
+    left
+    have hnl : wDepth w.pc = 0 := by
+      cases hd : wDepth w.pc with
+      | zero => rfl
+      | succ m =>
+        have := (hL.wk k w hk (by omega)).1
+        rw [ho] at this; cases this
+    have hacq : canAcquire s (.worker k) = true := by simp [canAcquire, ho]
+    unfold serving at hs; unfold wHasTask at hnt; unfold wDepth at hnl
+    cases hpc : w.pc <;> simp [hpc] at hs hnt hnl
+    · -- loopHead
+      obtain ⟨s', hs'⟩ := Option.isSome_iff_exists.mp
+        (show (step? s ⟨.worker k, .eventIsSet, false⟩).isSome by simp [step?, hk, workerStep, hpc])
+      exact ⟨.eventIsSet, s', rfl, hs'⟩
+    · -- get
+      cases hqu : s.queue with
+      | nil => rw [hqu] at ht; cases ht
+      | cons it rest =>
+        cases it with
+        | sentinel =>
+          obtain ⟨s', hs'⟩ := Option.isSome_iff_exists.mp
+            (show (step? s ⟨.worker k, .queueGet, false⟩).isSome by simp [step?, hk, workerStep, hpc, hqu])
+          exact ⟨.queueGet, s', rfl, hs'⟩
+        | task t0 =>
+          obtain ⟨tk, htk, _⟩ := hT.qphase t0 (by rw [hqu]; simp)
+          have hlt : t0 < s.tasks.length := (List.getElem?_eq_some_iff.mp htk).1
+          obtain ⟨s', hs'⟩ := Option.isSome_iff_exists.mp
+            (show (step? s ⟨.worker k, .queueGet, false⟩).isSome by simp [step?, hk, workerStep, hpc, hqu, hlt])
+          exact ⟨.queueGet, s', rfl, hs'⟩
+    · -- retAcq
+      obtain ⟨s', hs'⟩ := Option.isSome_iff_exists.mp
+        (show (step? s ⟨.worker k, .lockAcquire, false⟩).isSome by
+          cases hret : retires s <;> simp [step?, hk, workerStep, hpc, hacq, hret])
+      exact ⟨.lockAcquire, s', rfl, hs'⟩
+
+/-- The no-stuck statement in the form first written (every client idle): some worker has an enabled operation that is
+    neither a time-out nor the end of a task body. -/
+theorem C10_progress_no_stuck (cfg : Config) (n : Nat) (s : State) (hctl : cfg.singleCtl = true)
+    (hr : Reach (init cfg n) s) (hrun : s.stop = false) (hidle : ∀ c ∈ s.clients, c.pc = .idle)
+    (hq : ∃ t, Item.task t ∈ s.queue)
+    (hcap : s.nbThreads < cfg.max ∨ ∃ w ∈ s.workers, serving w = true ∧ wHasTask w = false) :
+    ∃ a s', a.timeout = false ∧ internalOp a.op = true ∧ (∃ k, a.who = .worker k) ∧ step? s a = some s' := by
+  have h := C10_progress_no_stuck_worker cfg n s hctl hr hrun
+    (fun c hc => by rw [hidle c (List.mem_of_getElem? hc)]; rfl)
+    (fun c hc => by rw [hidle c hc]; rfl) hq hcap
+  obtain ⟨k, w, _, _, _, h⟩ := h
+  rcases h with ⟨op, s', hop, hst⟩ | ⟨k', s', _, hst⟩
+  · exact ⟨⟨.worker k, op, false⟩, s', rfl, hop, ⟨k, rfl⟩, hst⟩
+  · exact ⟨⟨.worker k', .lockRelease, false⟩, s', rfl, rfl, ⟨k', rfl⟩, hst⟩
+
+/-- **The measure.**  Every non-time-out step of a serving worker that holds no task, while the stop flag is clear,
+    either takes an item from the queue (at `queue.get`), or is the retirement decrement — possible only when
+    `nb_threads > nb_pending` and `nb_threads > min_threads`, so that `C10_no_starvation` and `C10_min_floor` still hold
+    afterwards (they hold in every reachable state) — or leaves the worker serving without a task and exactly one
+    operation closer to `queue.get` (`distToGet` ≤ 4).  With `C10_progress_no_stuck_worker` (the worker's operation, or
+    the lock holder's release — after which the lock is free — is enabled) this is the decreasing-measure argument:
+    under weak fairness a queued task below capacity is taken after at most 4 own steps of a free serving worker,
+    without any `task.end`. -/
+theorem C10_progress_measure (s s' : State) (k : Nat) (w : Worker) (op : Op) (hk : s.workers[k]? = some w)
+    (hrun : s.stop = false) (hs : serving w = true) (hnt : wHasTask w = false)
+    (h : step? s ⟨.worker k, op, false⟩ = some s') :
+    ∃ w', s'.workers[k]? = some w' ∧
+      ((w.pc = .get ∧ (wHasTask w' = true ∨ w'.pc = .sentDone)) ∨
+       (w.pc = .retAcq ∧ s.nbThreads > s.nbPending ∧ s.nbThreads > s.cfg.min ∧ w'.pc = .retRelExit) ∨
+       (serving w' = true ∧ wHasTask w' = false ∧ distToGet w'.pc + 1 = distToGet w.pc)) := by
+  have hlt : k < s.workers.length := (List.getElem?_eq_some_iff.mp hk).1
+  simp only [step?, hk] at h
+  unfold workerStep at h
+  step_cases
+  all_goals (
+    refine ⟨_, List.getElem?_set_self hlt, ?_⟩
+    simp_all [serving, wHasTask, distToGet, retires])
+
+/-- Non-vacuity of `C10_progress_no_stuck(_worker)` and `C10_progress_measure`: in the same state every client is idle,
+    a task is queued, worker 1 is serving without a task (at the loop head, `distToGet = 1`) and its `event.is_set` is
+    enabled; after it the worker is at `queue.get` (`distToGet = 0`). -/
+example : ∃ s s', run (init { max := 2, min := 1, qbound := 0 } 2) exampleRun = some s ∧
+    s.stop = false ∧ s.clients.all (fun c => c.pc == .idle) = true ∧ Item.task 1 ∈ s.queue ∧
+    (s.workers.map (fun w => (serving w, wHasTask w, distToGet w.pc))) = [(true, true, 5), (true, false, 1)] ∧
+    step? s ⟨.worker 1, .eventIsSet, false⟩ = some s' ∧
+    (s'.workers.map (fun w => (serving w, wHasTask w, distToGet w.pc))) = [(true, true, 5), (true, false, 0)] := by
+  refine ⟨_, _, rfl, ?_, ?_, ?_, ?_, rfl, ?_⟩ <;> decide
+
+/-! Statement not proved — kept at full strength.
+
+  The liveness reading of the progress claim over infinite runs.  The model has no notion of fairness, and the pool
+  lock needs *strong* fairness per operation (a worker waiting for the lock is enabled only intermittently; CPython's
+  lock gives no more).  What is proved above is its safety skeleton, in every reachable state: a free serving worker
+  exists (`C10_no_starvation`), it or the lock holder can move without any `task.end` (`C10_progress_no_stuck_worker`),
+  and each of its steps brings it closer to `queue.get`, or is a retirement that preserves the inequality
+  (`C10_progress_measure`).  Missing: the induction over a fair run that turns these into "eventually taken" (it also
+  needs: after finitely many steps no worker is spawned or retires while the head task waits). -/
+
+/-- The beginning of an API call: the client program's choice, not a step the scheduler owes. -/
+def isCallOp (op : Op) : Bool :=
+  match op with
+  | .callStart | .callStop | .callClear | .callJoin | .callJoinT | .callEnqueue | .callWait _ => true
+  | _ => false
+
+/-- On every infinite run that is strongly fair for each operation of each thread that is neither a time-out, nor the
+    beginning of an API call, nor a `task.end`, a task at
+    the head of the queue of a running pool whose `start()` has returned, with fewer than `max_threads` workers holding
+    a task for as long as it waits, is eventually removed from the queue (taken by a worker, or dropped by `clear()`)
+    — whether or not any running task ever finishes. -/
+def C10_liveness_full_statement : Prop :=
+  ∀ (cfg : Config) (n : Nat) (σ : Nat → State) (α : Nat → Action), cfg.singleCtl = true →
+    σ 0 = init cfg n → (∀ i, step? (σ i) (α i) = some (σ (i + 1))) →
+    (∀ (who : Tid) (op : Op) (i : Nat), internalOp op = true → isCallOp op = false →
+      (∀ j, i ≤ j → ∃ j', j ≤ j' ∧ (step? (σ j') ⟨who, op, false⟩).isSome = true) →
+      ∃ j, i ≤ j ∧ α j = ⟨who, op, false⟩) →
+    ∀ (i t : Nat) (rest : List Item), (σ i).queue = .task t :: rest →
+      (∀ j, i ≤ j → (σ j).stop = false) →
+      (∀ c, (σ i).clients[0]? = some c → inStart c.pc = false) →
+      (∀ j, i ≤ j → Item.task t ∈ (σ j).queue → (σ j).workers.countP wHasTask < cfg.max) →
+      ∃ j, i ≤ j ∧ Item.task t ∉ (σ j).queue
 
 /-! ### extracted facts -/
 
